@@ -22,6 +22,7 @@ LEVEL_TEXT = ("log8: exhaustive over all counter pairs for every configuration o
 LEVEL_NOTE = "cross-thread interference in the prange kernels is observed by effect only (cell-by-cell comparison), not by a race detector"
 BUDGET = {"quick": 90, "thorough": 420}
 SHARDS = {"quick": 1, "thorough": 16}
+BOUNDSCHECK = True
 ENV = {"quick": {"NUMBA_NUM_THREADS": "16"}, "thorough": {"NUMBA_NUM_THREADS": "4"}}
 UMAX = {"log16": 65535, "log8": 255}
 DT = {"linear": np.uint32, "log16": np.uint16, "log8": np.uint8}
@@ -245,7 +246,7 @@ def gen_cases(ctx):
             cases.append({"type": "table", "kind": kind, "cfg": c, "pattern": "all-counters-vs-empty"})
     for i in range(4):
         cases.append({"type": "table", "kind": "linear", "cfg": {}, "pattern": "linear-random", "seed": int(rng.integers(0, 2**31)),
-                      "depth": pick(rng, [1, 16, 33]), "width": pick(rng, [1, 7, 2048])})
+                      "depth": 16 if i == 0 else pick(rng, [1, 16, 33]), "width": 2048 if i == 0 else pick(rng, [1, 7, 2048])})
     for i in range(6):
         cases.append({"type": "estimate", "seed": int(rng.integers(0, 2**31)), "width": int(rng.integers(1, 20)), "depth": int(rng.integers(1, 6))})
     for i, c in enumerate(cases):
